@@ -52,8 +52,24 @@ def replay_model_scripts(chk, binary, prop_kind="completion"):
                 for s in share:
                     chk.distinct.add(fam + json.dumps([(x["act"], x["arg"]) for x in s["steps"]]))
                 ndiv = 0
+                # an endpoint that stopped reading its socket is told from a slow machine by running the script once more, alone
+                wedged = [r["script"] for r in rows[:-1] if r.get("wedge")]
+                confirmed = set()
+                if wedged:
+                    with open(inp, "w") as fh:
+                        for i in wedged[:40]:
+                            fh.write(json.dumps({"scen": scen.ALL[fam], "steps": share[i]["steps"], "cap": 2, "bkcap": 3,
+                                                 "split": variant == "split"}) + "\n")
+                    rc2, _ = vlib.run_test(binary, "TestVerifHsScripts", {"VERIF_IN": inp, "VERIF_OUT": out + "2", "GOMAXPROCS": "4"}, timeout=1200)
+                    if rc2 == 0 and os.path.exists(out + "2"):
+                        for r2 in vlib.read_ndjson(out + "2")[:-1]:
+                            if r2.get("wedge") or (not r2.get("lab") and not r2["completed"]):
+                                confirmed.add(wedged[r2["script"]])
                 for r in rows[:-1]:
                     if r.get("lab"):
+                        continue
+                    if r.get("wedge") and r["script"] not in confirmed:
+                        chk.note("script %d of %s did not become quiescent once and passed when run again" % (r["script"], fam))
                         continue
                     if r.get("diverge"):
                         ndiv += 1
@@ -61,7 +77,7 @@ def replay_model_scripts(chk, binary, prop_kind="completion"):
                             chk.note("DIVERGENCE model/code (%s script %d): %s" % (fam, r["script"], r["diverge"][0]))
                     if not r["completed"]:
                         sc = share[r["script"]]
-                        chk.violation({"kind": "no-completion-after-faults", "variant": fam, "final": r.get("final"),
+                        chk.violation({"kind": "no-completion-after-faults", "variant": fam, "final": r.get("final"), "wedge": r.get("wedge"),
                                        "cerr": r.get("cerr"), "serr": r.get("serr"),
                                        "script": {"scen": scen.ALL[fam], "steps": sc["steps"], "cap": 2, "bkcap": 3,
                                                   "split": variant == "split"}})
